@@ -9,7 +9,59 @@ BASELINE_OFF = ("cd /repo && (cargo nextest run --workspace --no-fail-fast --off
                 "cargo test --workspace --no-fail-fast --offline)")
 
 # property -> dict(level category, text, note, technique, design_ref) ; absent => not_applicable
+KANI = "Kani/CBMC function-contract harnesses on the real code (additions-only overlay)"
+VERUS = "Verus on functions extracted mechanically from /repo every run"
+
 CLAIMED = {
+    "C01": dict(
+        category="proof",
+        text=("Losslessness is cut into per-stage contracts, each proved against an independent RFC 9639 spec: zig-zag folding and its "
+              "inverse (Kani function contracts, all i32), the Rice split (q<<p)+r == zigzag(e) complete over i32 x 0..=14, the "
+              "partition plumbing encode_residual_partition / encode_residual_with_prc_parameter for ANY block length (Verus on the real "
+              "loops), is_constant for any length (Verus), two's-complement fields and Rice codes as written by both sinks (Kani, complete "
+              "per operation), subframe layouts on small blocks (Kani, bounded), frame number/range checks of the frame-level entry point."),
+        note=("Predictor inner loops (reset_fixed_lpc_errors, lpc::compute_error) are covered only by bounded units or not at all; the "
+              "float LPC estimator is outside any contract; assumption A1 (exact LPC residual fits i32) is stated, not proved; the "
+              "multi-thread path is unreachable for both verifiers."),
+        technique=KANI + " + " + VERUS,
+        design_ref="6 C01"),
+    "C02": dict(
+        category="proof",
+        text=("Finite code spaces are enumerated symbolically and therefore complete: every block size 1..65535, every u32 sample rate, "
+              "every sample-size and channel code, every coded number < 2^36 (per byte-count class) against an RFC decoder; frame header "
+              "layout + CRC-8 per shape with symbolic field values; CRC tables against the bitwise polynomials; subframe/residual/"
+              "STREAMINFO/metadata layouts; frame = header ++ subframes ++ padding ++ CRC-16 and stream = fLaC ++ blocks ++ frames for any "
+              "number of subframes/frames (Verus on Frame::write / Stream::write); frame numbering 0,1,2.. and full blocks for any number "
+              "of frames (Verus on the real driver loop)."),
+        note=("Header shapes: 2 of 54 in the quick tier, 4 in the thorough tier (variant per shape concrete, payloads symbolic); subframe "
+              "bodies bounded to blocks of 4..7 samples; CRC tables checked for messages up to 17 bytes; Source behaviour per trait docs."),
+        technique=KANI + " + " + VERUS,
+        design_ref="6 C02"),
+    "C03": dict(
+        category="proof",
+        text=("Context::fill_interleaved feeds exactly the channel-interleaved little-endian bytes of the byte-rounded width for any number "
+              "of samples, fill_le_bytes exactly the given bytes, both advance the counters identically (Verus on the real loops with the "
+              "digest as a ghost byte sequence); the driver sets total_samples, the MD5 of everything delivered and the source's format for "
+              "any number of frames (Verus on the real driver); STREAMINFO field layout (Kani, all field values)."),
+        note="md-5 itself is trusted (assumption A-deps); a foreign Source honours its documentation (A-src); the hashing thread of the multi-thread path is not reachable.",
+        technique=VERUS + " + " + KANI,
+        design_ref="6 C03"),
+    "C04": dict(
+        category="proof",
+        text=("update_frame_info step contract (Kani, complete over all field values) + the driver loop invariant over a ghost frame list "
+              "(Verus on the real encode_with_fixed_block_size, any number of frames): max_block == requested, 16 <= min_block <= every "
+              "non-final block, min/max frame size == min/max over emitted frames."),
+        note="Single-thread driver only (par.rs is outside both verifiers; it received the same one-statement repair); frame byte length = count_bits()/8, equality with written bits is C08.",
+        technique=VERUS + " + " + KANI,
+        design_ref="6 C04"),
+    "C08": dict(
+        category="proof",
+        text=("count_bits() == bits written, level by level: sink operations (C11 units), UTF-8 number and header extras (complete), frame "
+              "header per shape, CONSTANT/VERBATIM/FIXED/LPC/RESIDUAL/STREAMINFO/metadata writers into an ideal bit string (Kani), cached "
+              "residual sums on both sides of the overflow switch, frame and stream assembly incl. the precomputed branch (Verus)."),
+        note="Subframe bodies bounded (block 4..7); Frame::count_bits's iterator sum is not extracted (closures) - its value is tied to written bits only through the component units.",
+        technique=KANI + " + " + VERUS,
+        design_ref="6 C08"),
     "C11": dict(
         category="proof",
         text=("Every sink operation of both in-memory sinks (write/write_msbs/write_lsbs for u8..u64, every n from 0 "
@@ -21,8 +73,34 @@ CLAIMED = {
               "other elements); zero runs up to 130 bits on the real sink + word-count arithmetic for every n; slice "
               "lengths 0 and 2 for write_bytes_aligned; the 'every finite sequence' quantifier follows by induction "
               "from the per-operation contract (state invariant wf is both pre- and post-condition)."),
-        technique="Kani/CBMC harness-encoded function contracts on the real code (overlay: harness modules appended, nothing edited)",
+        technique=KANI,
         design_ref="6 C11"),
+    "C12": dict(
+        category="proof",
+        text=("Frame::write and Stream::write are verified by Verus against an ABSTRACT BitSink whose every operation may return Err: no "
+              "unwrap/expect on a fallible sink result is provable, the error is returned, and the sink content stays a prefix of the "
+              "correct bitstream (for any number of subframes / metadata blocks / frames)."),
+        note="Component writers below the frame level are covered through their contracts (append-only); a user sink is assumed append-only on error as its trait documentation implies.",
+        technique=VERUS,
+        design_ref="6 C12"),
+    "C13": dict(
+        category="proof",
+        text=("PrcBitTable::minimizer == argmin with smallest-p tie-break over all tables below the saturation bound (Kani, 16 symbolic "
+              "entries); merge == a+b-4 saturating (complete); finest_partition_order == largest admissible order (Kani function contract); "
+              "from_errors exact-or-saturated for residuals up to 2^28-2^24 (bounded n); the chosen parameters reach the Residual unchanged "
+              "(Verus)."),
+        note="Known finding F-C13-from-errors-wrap (u32 lane sums wrap for larger folded residuals); PrcParameterFinder::find's merge loop itself is not under contract (composition argument only).",
+        technique=KANI + " + " + VERUS,
+        design_ref="6 C13"),
+    "C17": dict(
+        category="proof",
+        text=("Argument contracts over the FULL symbolic domain (not a grid): StreamInfo::new / Stream::new / FrameHeader::new / "
+              "FrameBuf::with_size / set_block_sizes Ok <=> untruncated arguments in range and stored == given; over-fill and bad "
+              "bytes-per-sample are errors for both fill paths; encode_fixed_size_frame rejects frame numbers >= 2^31 and out-of-range "
+              "samples before encoding; Context::fill_le_bytes rejects a disagreeing width (Verus)."),
+        note="The multi-thread prologue (par.rs) cannot be compiled by Kani (thread::spawn ICE): its block-size check is not under contract.",
+        technique=KANI + " + " + VERUS,
+        design_ref="6 C17"),
 }
 
 NOT_APPLICABLE = {
